@@ -174,6 +174,8 @@ class FamilyRun:
         agg = {"family": self.family, "tier": self.tier, "seed": self.seed, "suites": len(suites), "verdicts": [],
                "cnt": {}, "cases": 0, "events": 0, "states": 0, "distinct": 0, "parts": 0, "grammars": 0,
                "samples": [], "opaque_rules": [], "t_compile": 0.0, "t_run": 0.0, "t_tlc": 0.0}
+        if any(su.get("needs_schedules") for su in suites):
+            self.schedules = self.make_schedules()
         with cf.ThreadPoolExecutor(max_workers=JOBS) as ex:
             built = [f.result() for f in [ex.submit(self.do_build, s) for s in suites]]
             jobs = []
@@ -200,6 +202,23 @@ class FamilyRun:
             agg[k] = round(agg[k], 1)
         return agg
 
+    def make_schedules(self):
+        """reader schedules for buffer_input, generated by TLC from spec/BufferInput.tla (spec -> code)"""
+        out = os.path.join(self.dir, "schedules.json")
+        md = out + ".md"
+        rc, txt = run(["java", "-XX:+UseSerialGC", "-cp", TLC_JAR, "tlc2.TLC", "-metadir", md, "BufferSched.tla"], 300,
+                      cwd=SPEC, env={"OUT": out})
+        shutil.rmtree(md, ignore_errors=True)
+        if not os.path.exists(out):
+            raise Broken("TLC did not produce the reader schedules\n" + txt[-1500:])
+        per_len = json.load(open(out))
+        txtp = os.path.join(self.dir, "schedules.txt")
+        with open(txtp, "w") as f:
+            for group in per_len:
+                for sch in sorted(group):
+                    f.write(" ".join(str(k) for k in sch) + "\n")
+        return txtp
+
     def do_build(self, suite):
         name = suite["name"]
         d = os.path.join(self.dir, name)
@@ -220,7 +239,8 @@ class FamilyRun:
             tbl, unknown = {"nodes": []}, []
             json.dump(tbl, open(tj, "w"))
         else:
-            rc, out = run([exe, prefix, tb] + [str(x) for x in suite.get("args", [])], 1500)
+            extra = ["0", "1", self.schedules] if suite.get("needs_schedules") else []
+            rc, out = run([exe, prefix, tb] + [str(x) for x in suite.get("args", [])] + extra, 1500)
             if rc != 0:
                 raise Broken("harness %s exited with %d\n%s" % (name, rc, out[-2000:]))
             import table as tablemod
